@@ -145,9 +145,71 @@ func (c *Cluster) nonBabblingStep(s *Step) {
 		c.exec(&Step{Op: "crash", A: n.idx, Kind: "now"})
 		c.exec(&Step{Op: "restart", A: n.idx})
 		c.stats.probe("c17-leave-then-restart")
+		if s.N > 0 && 3*len(c.liveBabbling()) > 2*len(c.vs.latest()) {
+			// keep the network going until the removal has come into force at the
+			// restarted node's last consensus round (the suspension rule is evaluated
+			// after every tick), at most s.N exchanges
+			for i := 0; i < s.N && n.running() && n.state() == _state.Babbling; i++ {
+				live := c.liveBabbling()
+				if len(live) < 2 {
+					break
+				}
+				x := live[c.inner.Intn(len(live))]
+				y := live[c.inner.Intn(len(live))]
+				if x == y || findPeer(x, y) == nil {
+					continue
+				}
+				c.exec(&Step{Op: "tick", A: x.idx, B: y.idx})
+			}
+			if n.running() && n.state() == _state.Suspended {
+				c.stats.probe("c17-leave-then-restart-driven-to-suspension")
+			} else if debugTrace && n.running() {
+				lcr := -1
+				if n.core().Hashgraph().LastConsensusRound != nil {
+					lcr = *n.core().Hashgraph().LastConsensusRound
+				}
+				fmt.Fprintf(os.Stderr, "leave-restart drive: node %d state %s lcr %d removedRound %d inLatestModel %v model rounds %v blocks %d live %d\n", n.idx, n.state(), lcr, n.core().RemovedRound(), n.inLatestModelSet(), c.vs.rounds, n.node.GetLastBlockIndex(), len(c.liveBabbling()))
+			}
+		}
 		return
 	case "maintenance":
 		c.maintenanceStep(c.nodeAt(s.A))
+		return
+	case "starve":
+		// composite: everybody but a and one partner b falls silent; a and b keep
+		// exchanging syncs, so that a's undetermined events grow through the
+		// suspension threshold one or two at a time (the rule is evaluated after
+		// every tick); afterwards the others come back
+		a, b := c.nodeAt(s.A), c.nodeAt(s.B)
+		if a == nil || b == nil || a == b || !a.running() || !b.running() || a.state() != _state.Babbling || b.state() != _state.Babbling || a.silent || b.silent {
+			return
+		}
+		if findPeer(a, b) == nil || findPeer(b, a) == nil {
+			return
+		}
+		c.nesting++
+		defer func() { c.nesting-- }()
+		c.stats.probe("c17-starve")
+		if a.core().Peers().Len() != a.core().Validators().Len() {
+			c.stats.probe("c17-starve-with-peers-and-validators-of-different-size")
+		}
+		was := map[*SimNode]bool{}
+		for _, n := range c.nodes {
+			if n != a && n != b {
+				was[n] = n.silent
+				n.silent = true
+			}
+		}
+		for i := 0; i < s.N && a.running() && a.state() == _state.Babbling && b.running() && b.state() == _state.Babbling; i++ {
+			x, y := a, b
+			if i%3 == 2 {
+				x, y = b, a
+			}
+			c.exec(&Step{Op: "tick", A: x.idx, B: y.idx})
+		}
+		for n, w := range was {
+			n.silent = w
+		}
 		return
 	case "shutdown":
 		if n := c.nodeAt(s.A); n != nil && n.running() && n.state() == _state.Suspended && !n.maintenance {
@@ -530,12 +592,37 @@ func init() {
 			} else {
 				cfg.Steps = r.Range(60, 200)
 			}
+			if r.Bool(0.2) {
+				// the suspension threshold on nodes that fast-forwarded while a
+				// membership change was pending (their peer list and their validator
+				// set differ in size): an undisturbed network that lets joiners in
+				// quickly, then 'starve' steps (see nonBabblingStep)
+				cfg.N0 = []int{3, 4, 4, 5}[r.Intn(4)]
+				cfg.Stores = make([]string, cfg.N0)
+				for i := range cfg.Stores {
+					cfg.Stores[i] = "inmem"
+				}
+				cfg.SuspendLimit = []int{2, 3, 5, 10}[r.Intn(4)]
+				cfg.FastSyncLate = true
+				cfg.Quorumless = false
+				cfg.Maintenance = false
+				cfg.PSilence, cfg.PPartition, cfg.PCrash, cfg.PLeave, cfg.MaxLeaves = 0, 0, 0, 0, 0
+				cfg.PDropReq, cfg.PDropResp, cfg.PLate = 0, 0, 0
+				cfg.PJoin = 0.05
+				cfg.MaxJoins = 3
+				cfg.PByz = 0.05
+				cfg.StarveOnly = true
+				cfg.Steps += 80
+			}
 			return cfg
 		},
 		run: func(c *Cluster, spec *runSpec) {
 			c.byzHandler = c.nonBabblingStep
 			c.byzGen = func(g *genState) *Step {
 				x := c.gen.Intn(10)
+				if c.cfg.StarveOnly && x != 4 {
+					return &Step{Op: "byz", Kind: "req", A: c.gen.Intn(16), N: c.gen.Intn(5)}
+				}
 				switch {
 				case x == 0:
 					hs := c.liveBabbling()
@@ -557,10 +644,33 @@ func init() {
 							return &Step{Op: "byz", Kind: "maintenance", A: n.idx}
 						}
 					}
+				case x == 4 && c.cfg.SuspendLimit <= 20:
+					hs := c.liveBabbling()
+					if len(hs) >= 2 {
+						a := hs[c.gen.Intn(len(hs))]
+						for _, n := range hs {
+							// a node that fast-forwarded while a membership change was pending
+							if n.core().Peers().Len() != n.core().Validators().Len() {
+								a = n
+							}
+						}
+						b := hs[c.gen.Intn(len(hs))]
+						if a != b && (a.core().Peers().Len() != a.core().Validators().Len() || c.gen.Bool(0.3)) {
+							nv := a.core().Validators().Len()
+							if k := a.core().Peers().Len(); k > nv {
+								nv = k
+							}
+							return &Step{Op: "byz", Kind: "starve", A: a.idx, B: b.idx, N: c.cfg.SuspendLimit*(nv+1) + 10}
+						}
+					}
 				case x == 2 && c.cfg.PLeave > 0:
 					for _, n := range c.liveBabbling() {
 						if n.storeKind == "badger" && !n.leaving && c.gen.Bool(0.5) {
-							return &Step{Op: "byz", Kind: "leave-restart", A: n.idx}
+							st := &Step{Op: "byz", Kind: "leave-restart", A: n.idx}
+							if c.gen.Bool(0.5) {
+								st.N = c.gen.Range(80, 300)
+							}
+							return st
 						}
 					}
 				}
